@@ -5,6 +5,8 @@ C03 — translator for data: re-extracts from the CURRENT tree
     the Keys enum `.value`; a single Keys value becomes a one-element list)
   * input/vt100_parser.py : the four regex pattern strings + flags (pattern pins)
   * keys.py : the three Keys values the parser hard-codes (CPRResponse, Vt100MouseEvent, BracketedPaste)
+  * input/posix_utils.py : default `count` of PosixStdinReader.read, default `errors`
+  * input/vt100_parser.py : the ESC… literals of Vt100Parser.feed (paste end mark)
   * the running interpreter : the code point ranges matched by regex `\\d` (str pattern)
 and writes lean/Ptk/Gen/C03Ansi.lean.
 """
@@ -73,6 +75,22 @@ def generate() -> None:
         body += f"/-- `{attr}.pattern` / `.flags` -/\n"
         body += f"def {nm} : String := " + lstr(r.pattern) + "\n"
         body += f"def {nm}Flags : Nat := {int(r.flags)}\n"
+    # constants the read path / feed hard-code
+    import inspect
+
+    from prompt_toolkit.input.posix_utils import PosixStdinReader
+
+    count = inspect.signature(PosixStdinReader.read).parameters["count"].default
+    if not isinstance(count, int):
+        raise TypeError(f"PosixStdinReader.read count default is not an int: {count!r}")
+    body += "\n/-- default of `count` in `PosixStdinReader.read(count)` (what `read_keys` asks `os.read` for) -/\n"
+    body += f"def readCount : Nat := {count}\n"
+    marks = sorted(c for c in P.Vt100Parser.feed.__code__.co_consts if isinstance(c, str) and c.startswith("\x1b"))
+    body += "/-- the ESC… string literals in `Vt100Parser.feed` (the paste end mark) -/\n"
+    body += "def feedMarks : List (List Char) := [" + ", ".join(G.ltext(m) for m in marks) + "]\n"
+    body += "/-- `errors=` default of `PosixStdinReader.__init__` -/\n"
+    body += "def readerErrors : String := " + lstr(
+        inspect.signature(PosixStdinReader.__init__).parameters["errors"].default) + "\n"
     dg = re.compile(r"\d")
     body += "\n/-- inclusive code point ranges matched by regex `\\d` (str pattern) -/\n"
     body += "def reDigitRanges : List (Nat × Nat) := " + G.lranges(G.ranges(lambda c: dg.match(c) is not None)) + "\n"
